@@ -43,12 +43,6 @@ Qed.
 (** the slot at instruction index [k] *)
 Definition slot (prog : list Z) (k : Z) : list Z := firstn 8 (skipn (Z.to_nat (8 * k)) prog).
 
-Lemma chk_ok t s x : in_ty t x -> chk t s x = Ok x.
-Proof. intros H. unfold chk. apply in_tyb_spec in H. now rewrite H. Qed.
-
-Lemma in_ty_usz x : 0 <= x < 2 ^ 64 -> in_ty USZ x.
-Proof. unfold in_ty, tmin, tmax; cbn [signed bits]. lia. Qed.
-
 Lemma bytes_ok_nth prog j : bytes_ok prog -> 0 <= nth j prog 0 < 256.
 Proof.
   intros H. destruct (Nat.lt_ge_cases j (length prog)) as [L|L].
